@@ -2,11 +2,11 @@
    GoLite program (Gen/Generated.v, from the Go source on every run), against Varint.delim_len.
    share.delimLen itself is an external of the translated program (GenLink.gen_ext: it is
    binary.PutUvarint into a scratch buffer, modelled by Varint.delim_len).  Statements only; proofs
-   in GenMoreProofs.v. *)
+   in GenMoreBase GenMoreC13.v. *)
 From Coq Require Import List ZArith NArith String.
 From GS.Model Require Import Base Varint GoLite.
 From GS.Gen Require Import Generated.
-From GS.GenProofs Require Import GenLink GenMoreProofs.
+From GS.GenProofs Require Import GenLink GenMoreBase GenMoreC13.
 Open Scope string_scope. Open Scope Z_scope.
 
 (* rawTxSize(desiredSize int) int: every non-negative int64 (fuel 2: it calls delimLen) *)
